@@ -42,6 +42,48 @@ pub struct LW {
     pub inner: LU,
 }
 
+/// A borrowed form whose owned form is a different type of a different shape (a hand-written `ToOwned`): `Cow<LHeader>` is
+/// written by serde as an `LHeader`, whichever variant it holds.
+#[derive(TS, Serialize, Debug, PartialEq)]
+#[ts(crate = "ts_rs")]
+pub struct LHeader {
+    pub id: u8,
+}
+
+#[derive(TS, Serialize, Deserialize, Clone, Debug, PartialEq)]
+#[ts(crate = "ts_rs")]
+pub struct LHeaderBuf {
+    #[serde(skip)]
+    #[ts(skip)]
+    pub header: LHeaderSlot,
+    pub note: String,
+}
+
+#[derive(Debug, PartialEq)]
+pub struct LHeaderSlot(pub LHeader);
+impl Default for LHeaderSlot {
+    fn default() -> Self {
+        LHeaderSlot(LHeader { id: 0 })
+    }
+}
+impl Clone for LHeaderSlot {
+    fn clone(&self) -> Self {
+        LHeaderSlot(LHeader { id: self.0.id })
+    }
+}
+impl std::borrow::Borrow<LHeader> for LHeaderBuf {
+    fn borrow(&self) -> &LHeader {
+        &self.header.0
+    }
+}
+impl ToOwned for LHeader {
+    type Owned = LHeaderBuf;
+    fn to_owned(&self) -> LHeaderBuf {
+        LHeaderBuf { header: LHeaderSlot(LHeader { id: self.id }), note: "owned".into() }
+    }
+}
+static L_HEADER: LHeader = LHeader { id: 7 };
+
 fn lw(x: u8) -> LW {
     LW { inner: lu(x) }
 }
@@ -318,6 +360,8 @@ pub fn table(thorough: bool) -> Vec<LibEntry> {
     t.push(entry!(sd "inlined-deps" 2 [[LW; 0]; 2], [[[], []]], gen []));
     t.push(entry!(sd "inlined-deps" 2 HashMap<String, Option<LW>>, [hm(vec![("k".to_string(), Some(lw(1)))])], gen ["LW"]));
     t.push(entry!(sd "inlined-deps" 2 Result<Box<LW>, [LW; 0]>, [Ok(Box::new(lw(1))), Err([])], gen ["LW"]));
+    t.push(entry!(s "cow-borrowed-form" 2 Cow<'static, LHeader>, [Cow::Borrowed(&L_HEADER), Cow::Owned(ToOwned::to_owned(&L_HEADER))], gen ["LHeader"], name "LHeader"));
+    t.push(entry!(s "cow-borrowed-form" 2 Vec<Cow<'static, LHeader>>, [vec![Cow::Borrowed(&L_HEADER)]], gen ["LHeader"], name "Array<LHeader>"));
     t.push(entry!(sd "nested-arg" 2 BTreeSet<Vec<LK>>, [[vec![LK::Ka, LK::Kb]].into_iter().collect()], gen ["LK"]));
     t.push(entry!(sd "nested-arg" 2 (Box<LU>, Cow<'static, LK>), [(Box::new(lu(1)), Cow::Owned(LK::Kb))], gen ["LK", "LU"]));
     t.push(entry!(sd "nested-arg" 2 (u8, Vec<LU>, Option<LK>), [(1, vec![lu(1)], None)], gen ["LK", "LU"]));
@@ -352,7 +396,7 @@ pub fn table(thorough: bool) -> Vec<LibEntry> {
 
 fn env_for(log: &mut Log) -> Env {
     let mut env = Env::new();
-    for d in [guarded(LU::decl), guarded(LK::decl), guarded(LW::decl), guarded(<serde_json::Value as TS>::decl)] {
+    for d in [guarded(LU::decl), guarded(LK::decl), guarded(LW::decl), guarded(LHeader::decl), guarded(LHeaderBuf::decl), guarded(<serde_json::Value as TS>::decl)] {
         match d {
             Ok(text) => match parse::parse_decl(&text) {
                 Ok(p) => env.add(p),
